@@ -3,8 +3,12 @@
 package c13
 
 import (
+	"crypto/ed25519"
+	"crypto/sha256"
+
 	"bytes"
 	"fmt"
+	ethcrypto "github.com/ethereum/go-ethereum/crypto"
 	"sort"
 	"strings"
 
@@ -67,6 +71,25 @@ func Run(o *drv.Out) {
 		ncases = 600
 	}
 	keys := fsmutil.BLSKeys(24, o.Seed)
+	var dpubs []crypto.PublicKeyI
+	for i := 0; i < 6; i++ {
+		seed := sha256.Sum256([]byte(fmt.Sprintf("c13-delegate-%d-%d", o.Seed, i)))
+		var bz []byte
+		if i%2 == 0 {
+			bz = ed25519.NewKeyFromSeed(seed[:]).Public().(ed25519.PublicKey)
+		} else {
+			k, e := ethcrypto.ToECDSA(seed[:])
+			if e != nil {
+				panic(e)
+			}
+			bz = ethcrypto.CompressPubkey(&k.PublicKey)
+		}
+		pk, e := crypto.NewPublicKeyFromBytes(bz)
+		if e != nil {
+			panic(e)
+		}
+		dpubs = append(dpubs, pk)
+	}
 	for ci := 0; ci < ncases; ci++ {
 		o.Case(fmt.Sprintf("%d", ci))
 		gen := &fsm.GenesisState{Params: fsm.DefaultParams()}
@@ -109,6 +132,13 @@ func Run(o *drv.Out) {
 				for i := 0; i < 1+r.Intn(nvals); i++ {
 					key := keys[r.Intn(len(keys))]
 					pub := key.PublicKey()
+					// delegates may stake with any supported key type (only committee members need BLS keys): a
+					// separate pool of ed25519 / secp256k1 identities that are always delegates
+					nonBLS := r.Intn(6) == 0
+					if nonBLS {
+						pub = dpubs[r.Intn(len(dpubs))]
+						o.Count("validator:non-bls-delegate")
+					}
 					var stake uint64
 					if r.Intn(3) == 0 {
 						stake = uint64(r.Intn(7))
@@ -130,7 +160,7 @@ func Run(o *drv.Out) {
 					// validators list their committees in the order they submitted them: any order
 					r.Shuffle(len(cs), func(i, j int) { cs[i], cs[j] = cs[j], cs[i] })
 					v := &fsm.Validator{Address: pub.Address().Bytes(), PublicKey: pub.Bytes(), StakedAmount: stake,
-						Committees: cs, Output: pub.Address().Bytes(), Delegate: r.Intn(4) == 0}
+						Committees: cs, Output: pub.Address().Bytes(), Delegate: r.Intn(4) == 0 || nonBLS}
 					if r.Intn(2) == 0 {
 						// non-custodial: the payout address is unrelated to the operator address (and to its order)
 						out := make([]byte, 20)
@@ -393,49 +423,49 @@ func Run(o *drv.Out) {
 			}
 		}
 		// LoadRootChainInfo(chain, h): what the root chain publishes to nested chains after each commit — the
-	// committee of height h (0 = latest) and the committee of the height before it
-	rootInfo := func(chain, h uint64) {
-		res := drv.Recover(func() string {
-			info, e := sm.LoadRootChainInfo(chain, h)
-			if e != nil {
-				return fmt.Sprintf("err:%d", e.Code())
+		// committee of height h (0 = latest) and the committee of the height before it
+		rootInfo := func(chain, h uint64) {
+			res := drv.Recover(func() string {
+				info, e := sm.LoadRootChainInfo(chain, h)
+				if e != nil {
+					return fmt.Sprintf("err:%d", e.Code())
+				}
+				show := func(cv *lib.ConsensusValidators) string {
+					vs, e := lib.NewValidatorSet(cv, false)
+					return showSet(vs, e)
+				}
+				return "cur " + show(info.ValidatorSet) + " last " + show(info.LastValidatorSet)
+			})
+			op := fmt.Sprintf("rootinfo %d %d", h, chain)
+			o.Op(op, res)
+			o.Count("op:rootinfo")
+			hh := h
+			if hh == 0 || hh > heightNow {
+				hh = heightNow
 			}
-			show := func(cv *lib.ConsensusValidators) string {
-				vs, e := lib.NewValidatorSet(cv, false)
-				return showSet(vs, e)
+			last := uint64(1)
+			if hh != 1 {
+				last = hh - 1
 			}
-			return "cur " + show(info.ValidatorSet) + " last " + show(info.LastValidatorSet)
-		})
-		op := fmt.Sprintf("rootinfo %d %d", h, chain)
-		o.Op(op, res)
-		o.Count("op:rootinfo")
-		hh := h
-		if hh == 0 || hh > heightNow {
-			hh = heightNow
-		}
-		last := uint64(1)
-		if hh != 1 {
-			last = hh - 1
-		}
-		want := func(at uint64) string {
-			sn := snaps[at]
-			var w []string
-			for _, v := range refMembers(sn.vals, chain, sn.capV, false) {
-				w = append(w, fmt.Sprintf("%s:%d", drv.Hex(v.PublicKey), v.StakedAmount))
+			want := func(at uint64) string {
+				sn := snaps[at]
+				var w []string
+				for _, v := range refMembers(sn.vals, chain, sn.capV, false) {
+					w = append(w, fmt.Sprintf("%s:%d", drv.Hex(v.PublicKey), v.StakedAmount))
+				}
+				return "members=" + strings.Join(w, ",")
 			}
-			return "members=" + strings.Join(w, ",")
-		}
-		if parts := strings.SplitN(res, " last ", 2); len(parts) == 2 && strings.HasPrefix(parts[0], "cur ") {
-			okCur := strings.HasPrefix(parts[0], "cur err:") || strings.HasSuffix(parts[0], want(hh))
-			okLast := strings.HasPrefix(parts[1], "err:") || strings.HasSuffix(parts[1], want(last))
-			if !okCur || !okLast {
-				o.Fail("C13:root-chain-info-committee-differs", fmt.Sprintf("LoadRootChainInfo(%d,%d): ValidatorSet / LastValidatorSet differ from the committees of heights %d / %d at the time of commit", chain, h, hh, last),
-					map[string]any{"case": ci, "op": op, "got": res, "want_cur": want(hh), "want_last": want(last)})
+			if parts := strings.SplitN(res, " last ", 2); len(parts) == 2 && strings.HasPrefix(parts[0], "cur ") {
+				okCur := strings.HasPrefix(parts[0], "cur err:") || strings.HasSuffix(parts[0], want(hh))
+				okLast := strings.HasPrefix(parts[1], "err:") || strings.HasSuffix(parts[1], want(last))
+				if !okCur || !okLast {
+					o.Fail("C13:root-chain-info-committee-differs", fmt.Sprintf("LoadRootChainInfo(%d,%d): ValidatorSet / LastValidatorSet differ from the committees of heights %d / %d at the time of commit", chain, h, hh, last),
+						map[string]any{"case": ci, "op": op, "got": res, "want_cur": want(hh), "want_last": want(last)})
+				}
 			}
+			o.Nontrivial(fmt.Sprintf("%d|%s|%s", ci, op, res))
 		}
-		o.Nontrivial(fmt.Sprintf("%d|%s|%s", ci, op, res))
-	}
-	tail(0, 1, uint64(2+r.Intn(3)))
+		tail(0, 1, uint64(2+r.Intn(3)))
 		tail(1, 0, 0)
 		tail(0, 1, 1)
 		tail(1, 0, 0)
